@@ -87,6 +87,11 @@ func (x *Exec) callFunction(st *State, ins ssa.Instruction, fn *ssa.Function, bi
 		x.inline(st, ins, fn, bindings, args, cont)
 		return
 	}
+	if strings.HasPrefix(fn.Name(), "init#") && fn.Pkg != nil && x.Fn.Pkg != nil && fn.Pkg == x.Fn.Pkg {
+		// user-written init functions of the package under initialisation: part of the initialiser
+		x.inline(st, ins, fn, nil, args, cont)
+		return
+	}
 	if fn.Name() == "init" && fn.Synthetic != "" {
 		// package initialisers of imported packages: their effect is summarised by global invariants
 		cont(st, Value{})
@@ -300,7 +305,9 @@ func (x *Exec) callByContract(st *State, ins ssa.Instruction, full string, fc *F
 	if fc.Pure {
 		var rs []Value
 		for i := 0; i < n; i++ {
-			rs = append(rs, x.pureApp(full, i, n, sig, args))
+			r := x.pureApp(full, i, n, sig, args)
+			x.assumeTypeInv(st, r, false)
+			rs = append(rs, r)
 		}
 		if n == 1 {
 			res = rs[0]
@@ -626,6 +633,22 @@ func (x *Exec) retLabel(ins *ssa.Return) string {
 
 func (x *Exec) checkPost(st *State, ins *ssa.Return, results []Value) {
 	x.emitSmoke(st, "return#"+x.retLabel(ins))
+	// package initialiser: establishes the package's global invariants
+	if x.Fn.Name() == "init" && x.Fn.Pkg != nil {
+		for _, cf := range x.P.Files {
+			if cf.PkgPath != x.Fn.Pkg.Pkg.Path() {
+				continue
+			}
+			for ci, c := range cf.GlobalInv {
+				genv := &Env{x: x, st: st, old: st, vars: map[string]Value{}, cf: cf}
+				lab := c.Label
+				if lab == "" {
+					lab = fmt.Sprintf("%d", ci)
+				}
+				x.emit(st, "global-invariant", lab, x.evalBool(genv, c.E, c), c.Src)
+			}
+		}
+	}
 	if x.FC == nil {
 		return
 	}
@@ -979,10 +1002,16 @@ func (x *Exec) modTargets(env *Env, ms string) []modTarget {
 		if err != nil {
 			env.errf("%v", err)
 		}
-		v := env.eval(e)
+		v := x.decodePtr(env.eval(e))
 		pt, ok := types.Unalias(v.Typ).Underlying().(*types.Pointer)
 		if !ok {
 			env.errf("modifies *x needs a pointer")
+		}
+		if v.Ptr != nil && len(v.Ptr.Steps) == 1 && !v.Ptr.Steps[0].IsIndex && v.Ptr.Cell == nil {
+			// pointer to a field of an object: the field's heap array at the object's reference
+			s0 := v.Ptr.Steps[0]
+			name, vs := x.TM.FieldArray(s0.Struct, s0.St, s0.Field)
+			return []modTarget{{kind: "field", ref: v.Ptr.Base, arr: name, desc: ms, vsort: vs}}
 		}
 		ref := x.asTerm(v)
 		if stt, ok := types.Unalias(pt.Elem()).Underlying().(*types.Struct); ok && !isTime(pt.Elem()) && !x.TM.IsOpaqueStruct(pt.Elem()) {
